@@ -12,6 +12,7 @@ from __future__ import annotations
 
 import asyncio
 import heapq
+import weakref
 from typing import Any, Dict, List, Optional
 
 from .world import HarnessError, StepCapExceeded, World
@@ -29,8 +30,9 @@ class SimLoop(asyncio.BaseEventLoop):
         self.loop_errors: List[Dict[str, Any]] = []
         self.set_exception_handler(self._on_loop_error)
         world.sched[policy] += 1
-        self._prio: Dict[int, int] = {}        # id(task) -> priority (higher runs first)
-        self._prio_keep: List[Any] = []
+        # task -> priority (higher runs first); weak, so the loop never keeps a finished task (and through it a
+        # coroutine frame, a context or a response) alive - C13 asks the garbage collector what survived
+        self._prio: Any = weakref.WeakKeyDictionary()
         self._pct_points: List[int] = []
         self._pct_low = 0
         self._steps = 0
@@ -59,13 +61,11 @@ class SimLoop(asyncio.BaseEventLoop):
         return owner if isinstance(owner, asyncio.Task) else None
 
     def _priority(self, task: Any) -> int:
-        key = id(task)
-        p = self._prio.get(key)
+        p = self._prio.get(task)
         if p is None:
             # a new task gets a seeded priority above all "lowered" ones
             p = 1000 + self.world.ch.draw(1000, 'pct.prio')
-            self._prio[key] = p
-            self._prio_keep.append(task)
+            self._prio[task] = p
         return p
 
     def _pick(self, ready: List[Any]) -> int:
@@ -133,9 +133,7 @@ class SimLoop(asyncio.BaseEventLoop):
             t = self._task_of(handle)
             if t is not None:
                 self._pct_low += 1
-                self._prio[id(t)] = 100 - self._pct_low
-                if t not in self._prio_keep:
-                    self._prio_keep.append(t)
+                self._prio[t] = 100 - self._pct_low
         handle._run()
         handle = None
 
